@@ -29,11 +29,14 @@ def rankBlocks (E : Nat) (rows : List Nat) (r : Nat) : Nat :=
   rowsBefore E rows (r / E) + (blockOf E rows (r / E)).countP (· < r % E)
 
 /-- mirrors: optional_index/mod.rs::find_block over the per-block offsets (`offsets[b]` =
-`rowsBefore b`): the last block whose offset is `≤ k`, scanning from `start`. -/
+`non_null_rows_before_block`): scan from `pos`; the first block whose offset is `> k` ends the scan
+(answer: the block before it); if none, the last block. -/
+def findBlockAux (offsets : List Nat) (k : Nat) : Nat → Nat → Nat
+  | 0, _ => offsets.length - 1
+  | fuel + 1, pos => if offsets.getD pos 0 > k then pos - 1 else findBlockAux offsets k fuel (pos + 1)
+
 def findBlock (offsets : List Nat) (k : Nat) (start : Nat) : Nat :=
-  match (List.range offsets.length).find? (fun b => decide (start ≤ b) && decide (offsets.getD b 0 > k)) with
-  | some b => b - 1
-  | none => offsets.length - 1
+  findBlockAux offsets k (offsets.length - start) start
 
 /-- block decomposition of select (mirrors: OptionalIndex::select) -/
 def selectBlocks (E : Nat) (numBlocks : Nat) (rows : List Nat) (k : Nat) : Nat :=
@@ -82,19 +85,20 @@ def sparseSelect (data : Bytes) (rank : Nat) : Nat := sparseValueAt data rank
 
 def popCount (n : Nat) : Nat := ((List.range 64).filter (fun i => n.testBit i)).length
 
-/-- mirrors: set_block/dense.rs::serialize_dense_codec: every mini block = bitvec (8 bytes LE) +
-number of set bits before it (u16 LE, wrapping) -/
+/-- the 64-bit bitvec of mini block `m`: `set_bit_at` for every member of the mini block
+(mirrors: dense.rs::set_bit_at, `*input |= 1 << n`) -/
+def miniBitvec (els : List Nat) (m : Nat) : Nat :=
+  (blockOf EPMB els m).foldl (fun acc x => acc ||| 2 ^ x) 0
+
+/-- one mini block: bitvec (8 bytes LE) + number of members in earlier mini blocks (u16 LE; the
+running counter `non_null_rows_before`, wrapping) -/
+def denseMiniBytes (els : List Nat) (m : Nat) : Bytes :=
+  leBytes Gen.MINI_BLOCK_BITVEC_NUM_BYTES (miniBitvec els m)
+    ++ leBytes Gen.MINI_BLOCK_OFFSET_NUM_BYTES (rowsBefore EPMB els m % 65536)
+
+/-- mirrors: set_block/dense.rs::serialize_dense_codec: all `ELEMENTS_PER_BLOCK / 64` mini blocks -/
 def denseEnc (els : List Nat) : Bytes :=
-  let nMini := EPB / EPMB
-  let minis : List (Nat × Nat) := els.foldr (fun e (acc : List (Nat × Nat)) =>
-    match acc with
-    | (m', bv) :: rest => if m' = e / EPMB then (m', bv + 2 ^ (e % EPMB)) :: rest else (e / EPMB, 2 ^ (e % EPMB)) :: acc
-    | [] => [(e / EPMB, 2 ^ (e % EPMB))]) []
-  let step := fun (acc : Bytes × Nat) (m : Nat) =>
-    let bitvec := ((minis.find? (fun p => p.1 = m)).map (·.2)).getD 0
-    (acc.1 ++ leBytes Gen.MINI_BLOCK_BITVEC_NUM_BYTES bitvec ++ leBytes Gen.MINI_BLOCK_OFFSET_NUM_BYTES (acc.2 % 65536),
-     acc.2 + popCount bitvec)
-  ((List.range nMini).foldl step ([], 0)).1
+  ((List.range (EPB / EPMB)).map (denseMiniBytes els)).flatten
 
 def denseMini (data : Bytes) (m : Nat) : Nat × Nat :=
   let d := data.drop (m * Gen.MINI_BLOCK_NUM_BYTES)
@@ -119,11 +123,15 @@ def denseRank (data : Bytes) (el : Nat) : Nat :=
 def denseRankIfExists (data : Bytes) (el : Nat) : Option Nat :=
   if denseContains data el then some (denseRank data el) else none
 
-/-- mirrors: DenseBlock::find_miniblock_containing_rank (take_while rank_offset ≤ rank, last) -/
+/-- mirrors: DenseBlock::find_miniblock_containing_rank — iterate the mini blocks from `m` while
+their rank offset is `≤ rank`, remember the last one (`take_while(..).last()`) -/
+def denseFindMiniAux (data : Bytes) (rank : Nat) : Nat → Nat → Option Nat → Option Nat
+  | 0, _, best => best
+  | fuel + 1, m, best =>
+    if (denseMini data m).2 ≤ rank then denseFindMiniAux data rank fuel (m + 1) (some m) else best
+
 def denseFindMini (data : Bytes) (rank : Nat) (from' : Nat) : Option Nat :=
-  let nMini := data.length / Gen.MINI_BLOCK_NUM_BYTES
-  let ids := ((List.range nMini).drop from').takeWhile (fun m => decide ((denseMini data m).2 ≤ rank))
-  ids.getLast?
+  denseFindMiniAux data rank (data.length / Gen.MINI_BLOCK_NUM_BYTES - from') from' none
 
 /-- mirrors: DenseBlock::select; `none` = the `unwrap()` panic -/
 def denseSelect (data : Bytes) (rank : Nat) : Option Nat := do
@@ -155,40 +163,51 @@ def Variant.numBytes : Variant → Nat
   | .dense => Gen.DENSE_BLOCK_NUM_BYTES
   | .sparse n => n * 2
 
-/-- groups a strictly increasing row list by block id, non-empty blocks only, in order
-(mirrors the loop of optional_index/mod.rs::serialize_optional_index) -/
-def groupBlocks (rows : List Nat) : List (Nat × List Nat) :=
-  rows.foldr (fun r (acc : List (Nat × List Nat)) =>
-    let b := (r / EPB) % 65536
-    let i := r % EPB
-    match acc with
-    | (b', els) :: rest => if b' = b then (b, i :: els) :: rest else (b, [i]) :: acc
-    | [] => [(b, [i])]) []
+def numBlocksOf (numRows : Nat) : Nat := (numRows + EPB - 1) / EPB
 
-/-- mirrors: optional_index/mod.rs::serialize_optional_index -/
+/-- how a block with `n` members is stored (an empty block is a sparse block with 0 values) -/
+def variantOfLen (n : Nat) : Variant := if Gen.is_sparse n then .sparse n else .dense
+
+/-- mirrors: serialize_optional_index_block — bytes of block `b` (nothing for an empty block) -/
+def blockBytesOf (rows : List Nat) (b : Nat) : Bytes :=
+  let els := blockOf EPB rows b
+  if Gen.is_sparse els.length then sparseEnc els else denseEnc els
+
+/-- the non-empty blocks in order: (block id, number of members) — the `block_metadata` vector of
+serialize_optional_index (the streaming group-by of the sorted rows, stated per block) -/
+def optEntries (rows : List Nat) (numRows : Nat) : List (Nat × Nat) :=
+  ((List.range (numBlocksOf numRows)).filter (fun b => !(blockOf EPB rows b).isEmpty)).map
+    (fun b => (b, (blockOf EPB rows b).length))
+
+/-- mirrors: SerializedBlockMeta::to_bytes — block id u16 LE, members − 1 as u16 LE -/
+def metaEntryBytes (e : Nat × Nat) : Bytes := leBytes 2 e.1 ++ leBytes 2 (e.2 - 1)
+
+/-- mirrors: optional_index/mod.rs::serialize_optional_index — VInt(num_rows), the block data, the
+metadata of the non-empty blocks, their number as u16 LE -/
 def optEnc (rows : List Nat) (numRows : Nat) : Bytes :=
-  let blocks := groupBlocks rows
-  if blocks.isEmpty then vintEnc numRows ++ leBytes 2 0 else
   vintEnc numRows
-    ++ (blocks.map (fun (b : Nat × List Nat) =>
-          if Gen.is_sparse b.2.length then sparseEnc b.2 else denseEnc b.2)).flatten
-    ++ (blocks.map (fun (b : Nat × List Nat) => leBytes 2 b.1 ++ leBytes 2 (b.2.length - 1))).flatten
-    ++ leBytes 2 blocks.length
+    ++ ((List.range (numBlocksOf numRows)).map (blockBytesOf rows)).flatten
+    ++ ((optEntries rows numRows).map metaEntryBytes).flatten
+    ++ leBytes 2 (optEntries rows numRows).length
 
-/-- mirrors: deserialize_optional_index_block_metadatas -/
-def optMetas (metaBytes : Bytes) (numRows : Nat) : List BlockMeta × Nat :=
-  let n := metaBytes.length / Gen.SERIALIZED_BLOCK_META_NUM_BYTES
-  let step := fun (acc : List BlockMeta × Nat × Nat) (k : Nat) =>
-    let d := metaBytes.drop (k * Gen.SERIALIZED_BLOCK_META_NUM_BYTES)
-    let blockId := leNat (d.take 2)
-    let cnt := leNat ((d.drop 2).take 2) + 1
-    let (metas, start, before) := acc
-    let pad := List.replicate (blockId - metas.length) { before := before, start := start, variant := Variant.sparse 0 : BlockMeta }
-    let variant := if Gen.is_sparse cnt then Variant.sparse cnt else Variant.dense
-    (metas ++ pad ++ [{ before := before, start := start, variant := variant }], start + variant.numBytes, before + cnt)
-  let (metas, start, before) := (List.range n).foldl step ([], 0, 0)
-  let total := (numRows + EPB - 1) / EPB
-  (metas ++ List.replicate (total - metas.length) { before := before, start := start, variant := Variant.sparse 0 }, before)
+/-- mirrors: SerializedBlockMeta::from_bytes over the metadata area -/
+def parseMetas : Nat → Bytes → List (Nat × Nat)
+  | 0, _ => []
+  | n + 1, bs => (leNat (bs.take 2), leNat ((bs.drop 2).take 2) + 1) :: parseMetas n (bs.drop 4)
+
+/-- mirrors: deserialize_optional_index_block_metadatas for strictly increasing block ids: position
+`cur` receives the next entry if it is the entry's block, else padding (`resize`) carrying the
+running offsets; the final `resize` pads up to the number of blocks. -/
+def buildMetas : Nat → Nat → Nat → Nat → List (Nat × Nat) → List BlockMeta
+  | 0, _, _, _, _ => []
+  | n + 1, cur, start, before, entries =>
+    match entries with
+    | (b, cnt) :: rest =>
+      if b = cur then
+        { before := before, start := start, variant := variantOfLen cnt }
+          :: buildMetas n (cur + 1) (start + (variantOfLen cnt).numBytes) (before + cnt) rest
+      else { before := before, start := start, variant := .sparse 0 } :: buildMetas n (cur + 1) start before entries
+    | [] => { before := before, start := start, variant := .sparse 0 } :: buildMetas n (cur + 1) start before []
 
 /-- mirrors: optional_index/mod.rs::open_optional_index -/
 def optOpen (bytes : Bytes) : Option OptIdx := do
@@ -199,33 +218,49 @@ def optOpen (bytes : Bytes) : Option OptIdx := do
   let metaLen := nBlocks * Gen.SERIALIZED_BLOCK_META_NUM_BYTES
   if metaLen > rest.length then none
   let data := rest.take (rest.length - metaLen)
-  let (metas, nn) := optMetas (rest.drop (rest.length - metaLen)) (numDocs % 2 ^ 32)
-  some { numDocs := numDocs % 2 ^ 32, numNonNull := nn, data := data, metas := metas }
+  let entries := parseMetas nBlocks (rest.drop (rest.length - metaLen))
+  let numDocs := numDocs % 2 ^ 32
+  some { numDocs := numDocs, numNonNull := (entries.map (·.2)).sum, data := data,
+         metas := buildMetas (numBlocksOf numDocs) 0 0 0 entries }
 
 def OptIdx.blockData (o : OptIdx) (m : BlockMeta) : Bytes := (o.data.drop m.start).take m.variant.numBytes
+
+/-- in-block operations, dispatched on the block variant (mirrors the `match block { Dense, Sparse }`) -/
+def blockRank (v : Variant) (d : Bytes) (t : Nat) : Nat :=
+  match v with
+  | .dense => denseRank d t
+  | .sparse _ => sparseRank d t
+
+def blockRankIfExists (v : Variant) (d : Bytes) (t : Nat) : Option Nat :=
+  match v with
+  | .dense => denseRankIfExists d t
+  | .sparse _ => sparseRankIfExists d t
+
+def blockSelect (v : Variant) (d : Bytes) (k : Nat) : Option Nat :=
+  match v with
+  | .dense => denseSelect d k
+  | .sparse n => if k < n then some (sparseSelect d k) else none
 
 /-- mirrors: OptionalIndex::rank; `none` = index out of bounds panic -/
 def OptIdx.rank (o : OptIdx) (doc : Nat) : Option Nat :=
   if doc ≥ o.numDocs then some o.numNonNull else do
   let m ← o.metas[doc / EPB]?
-  let d := o.blockData m
-  some (m.before + (match m.variant with | .dense => denseRank d (doc % EPB) | .sparse _ => sparseRank d (doc % EPB)))
+  some (m.before + blockRank m.variant (o.blockData m) (doc % EPB))
 
 /-- mirrors: OptionalIndex::rank_if_exists -/
 def OptIdx.rankIfExists (o : OptIdx) (doc : Nat) : Option Nat := do
   let m ← o.metas[doc / EPB]?
-  let d := o.blockData m
-  let r ← (match m.variant with | .dense => denseRankIfExists d (doc % EPB) | .sparse _ => sparseRankIfExists d (doc % EPB))
+  let r ← blockRankIfExists m.variant (o.blockData m) (doc % EPB)
   some (m.before + r)
 
-/-- mirrors: OptionalIndex::select -/
-def OptIdx.select (o : OptIdx) (rank : Nat) : Option Nat := do
-  let b := findBlock (o.metas.map (·.before)) rank 0
+/-- mirrors: OptionalIndex::select; `start` = 0, or the cursor's current block for
+OptionalIndexSelectCursor -/
+def OptIdx.selectFrom (o : OptIdx) (start rank : Nat) : Option Nat := do
+  let b := findBlock (o.metas.map (·.before)) rank start
   let m ← o.metas[b]?
-  let d := o.blockData m
-  let inBlock ← (match m.variant with
-    | .dense => denseSelect d (rank - m.before)
-    | .sparse n => if rank - m.before < n then some (sparseSelect d (rank - m.before)) else none)
+  let inBlock ← blockSelect m.variant (o.blockData m) (rank - m.before)
   some (b * EPB + inBlock)
+
+def OptIdx.select (o : OptIdx) (rank : Nat) : Option Nat := o.selectFrom 0 rank
 
 end TantivyModel.Columnar
